@@ -12,7 +12,7 @@ import tempfile
 
 from ..common import Verdict, fx, pool_map, use_repo
 from ..obs import tlc_obs
-from ..tla import SPEC_DIR, MachineryError, jsonable, run_tlc
+from ..tla import SPEC_DIR, jsonable, run_tlc
 
 # level -> number table; mirrors LoadP / LoadQ / SgenP / SgenQ of ConvertDef.tla (MW / Mvar here, kW / kvar there)
 LOADS = {"ld1": (1, 8.0, 2.0), "ld4": (4, 2.0, 1.0), "ld2": (3, 5.0, 1.0)}
@@ -182,8 +182,7 @@ def run(tier, seed, replay=None):
         if tier == "thorough" and len(cfgs) > CAP_THOROUGH:
             cfgs = random.Random(seed).sample(cfgs, CAP_THOROUGH)
             exhaustive = False
-        elif tier == "quick" and seed:
-            pass    # quick is exhaustive over its (smaller) space; the seed only matters for thorough sampling / jitter
+        # (quick is exhaustive over its smaller space; the seed only matters for thorough sampling / jitter)
         corrupt = os.environ.get("VERIF_C21_CORRUPT", "")
         jobs = []
         for k, c in enumerate(cfgs):
